@@ -171,6 +171,12 @@ def work(item, ctx):
                 cfg = H.full_config(rng, ns, drop=drop, fill=0xA5 if rng.random() < 0.05 else 0)
             g = H.Hostile(rng, cfg, ns)
             lines = g.history(rng.choice([30, 60, 120, 300]))
+            if cfg.has(0x2031, 0):
+                # the application resets the node from inside the write function of an object while the SDO request is being served
+                rid = 0x600 + cfg.nodeid
+                for e_ in ["rx %x 8 2f31200001000000" % rid, "rx %x 8 2131200001000000" % rid, "rx %x 8 0d01000000000000" % rid, "rx %x 8 2f31200002000000" % rid, "tick 3"]:
+                    lines.insert(rng.randint(len(lines) // 3, len(lines)), e_)
+                res.counters["histories_with_reset_object"] += 1
             if cfg.has(0x1804, 1):
                 # records of PDOs the stack is not built for: written like any other object, in PRE-OPERATIONAL and in OPERATIONAL
                 rid = 0x600 + cfg.nodeid
